@@ -135,6 +135,25 @@ def run(chk, n):
         mgmt.run_cases(chk, kind, cases, spec_check_async, label=f"fault-async-{kn}", impl_kwargs=dict(enforcer_cls=AsyncFacade),
                        key_fn=lambda k, r, o: ("async", k.name, repr(r), repr([x for x in o if x[0] < 50])))
         chk.extra["strata"][f"fault_async_{kn}"] = len(cases)
+    # role links deliberately OUT of step with the policy before the failing load (a grouping rule added while
+    # auto-build was off): a load that fails in the ADAPTER, before any role manager was touched, must leave those links
+    # exactly as they were (nothing to roll back).  Failures later in the load are excluded here: their rollback
+    # rebuilds the links from the kept policy, which is C11_failed_reload's hypothesis (links in sync before).
+    A = mgmt.ATOMS.a
+    for kn in ("rbac", "dom"):
+        kind = mgmt.KINDS[kn]
+        uni = mgmt.Universe(kind)
+        probe = mgmt.probe_ops(kind, uni)
+        d = [A("d1")] if kind.dom else []
+        rows = [(0, [A("admin")] + d + [A("data1"), A("read")]), (1, [A("alice"), A("admin")] + d),
+                (0, [A("editor")] + d + [A("data2"), A("write")])]
+        cases = []
+        for k in range(len(rows) + 1):
+            for extra in ([A("bob"), A("admin")] + d, [A("bob"), A("editor")] + d):
+                ops = [(31,), (36, False), (1, 1, extra), (36, True)] + probe + [(32, k)] + probe
+                cases.append((rows, False, ops))
+        mgmt.run_cases(chk, kind, cases, spec_check, label=f"links-out-of-step-{kn}")
+        chk.extra["strata"][f"links_out_of_step_{kn}"] = len(cases)
     # exhaustive failure points on one fixed policy
     kind = mgmt.KINDS["rbac"]
     A = mgmt.ATOMS.a
